@@ -35,6 +35,7 @@ import (
 
 	"gorm.io/gorm"
 	"gorm.io/gorm/clause"
+	"gorm.io/gorm/schema"
 )
 
 // ---------------------------------------------------------------------------------------------
@@ -188,12 +189,33 @@ type c08ModeCase struct {
 }
 
 var c08ModeOps = []string{"find", "count", "pluck", "first", "take", "last", "scan", "rows", "update", "updates", "updatecolumn", "delete", "delete", "delete-again",
-	"unscoped-find", "unscoped-count", "unscoped-update", "unscoped-delete", "unscoped-first"}
+	"unscoped-find", "unscoped-count", "unscoped-update", "unscoped-delete", "unscoped-first", "unscoped-restore"}
+
+// c08LiveValue: what the soft-delete column of a live row holds (nil | the zeroValue timestamp | 0), read off the declaration
+func c08LiveValue(d c08Decl) interface{} {
+	live := d.Live
+	if i := strings.Index(live, " AND "); i >= 0 {
+		live = live[:i]
+	}
+	switch {
+	case strings.HasSuffix(live, " IS NULL"):
+		return nil
+	case strings.HasSuffix(live, " = 0"):
+		return 0
+	}
+	return strings.Trim(live[strings.Index(live, "= ")+2:], "'")
+}
 
 func c08ModeOne(r *Result, seed int64, di int) {
 	rng := rand.New(rand.NewSource(seed))
 	d := c08Zoo[di%len(c08Zoo)]
-	db, _, sqlDB := OpenRec(&gorm.Config{NowFunc: fixedNowFunc})
+	cfg := &gorm.Config{NowFunc: fixedNowFunc}
+	if seed%4 == 0 {
+		// schema-qualified table names: the filter is written with clause.CurrentTable
+		cfg.NamingStrategy = schema.NamingStrategy{TablePrefix: "main."}
+		r.H("modes.naming", "TablePrefix main.")
+	}
+	db, _, sqlDB := OpenRec(cfg)
 	defer sqlDB.Close()
 	table, rows := c08DeclSetup(db, d, rng)
 	n := len(rows) / 2
@@ -314,7 +336,7 @@ func c08ModeOne(r *Result, seed int64, di int) {
 					h = keptH
 				} else {
 					h = base
-					if c.Key != 0 && (fin == "update" || fin == "updates" || fin == "updatecolumn" || fin == "count" || fin == "pluck" || fin == "scan" || fin == "rows") {
+					if c.Key != 0 && (fin == "update" || fin == "updates" || fin == "updatecolumn" || fin == "restore" || fin == "count" || fin == "pluck" || fin == "scan" || fin == "rows") {
 						if fin == "count" || fin == "pluck" || fin == "scan" || fin == "rows" {
 							// reads ignore the key of the Model value: give it as a condition
 							h = h.Model(d.newModel()).Where("id = ?", c.Key)
@@ -442,6 +464,15 @@ func c08ModeOne(r *Result, seed int64, di int) {
 								ref[id].V = newV
 							}
 						}
+					case "restore":
+						// Unscoped().Update(<soft-delete column>, <live value>): the marked rows are visible to it, they come back
+						res := h.Update(d.Col, c08LiveValue(d))
+						err, ra = res.Error, res.RowsAffected
+						if err == nil {
+							for _, id := range exp {
+								ref[id].Dead = false
+							}
+						}
 					case "delete", "delete-again":
 						var res *gorm.DB
 						if c.Key != 0 && (!kept || ci == 0) {
@@ -561,7 +592,7 @@ func c08ModeOne(r *Result, seed int64, di int) {
 
 func init() {
 	register("C08", func(r *Result, rng *rand.Rand, tier string) {
-		n := map[string]int{"quick": 152, "thorough": 1500, "search": 400}[tier]
+		n := map[string]int{"quick": 152, "thorough": 6000, "search": 400}[tier]
 		off := rng.Intn(len(c08Zoo))
 		for i := 0; i < n && !expired(); i++ {
 			c08ModeOne(r, rng.Int63(), off+i)
